@@ -14,6 +14,11 @@ TRUSTED_BASE = C11.TRUSTED_BASE + ['end-to-end comparison uses lxml serialisatio
 ASSUMPTIONS = C11.ASSUMPTIONS + ['blank-line and scaling invariance are not theorems yet: decided by the metamorphic search only']
 
 IND, DED = '\x0e', '\x0f'
+WIDE = '\xa0\u3000\u2003\u2009\u202f'
+
+def in_scope(text):
+    """the C11 alphabet plus the non-ASCII spaces (they are line content)"""
+    return C11.in_alphabet(''.join(c for c in text if c not in WIDE))
 
 def depth_oracle(size, text, out):
     """deeper -> +1, same -> same, less -> never deeper, for consecutive non-blank lines."""
@@ -79,6 +84,17 @@ def pre_cases(ctx, budget):
     ctx.stats['exhaustive_subspace'] = 'all indentation sequences of <=%d lines over widths %s, sizes 1..3' % (ml, widths)
     for i in range(ctx.n(1000, 50000) * budget):
         out.append((ctx.rng.choice([1, 2, 2, 3, 4]), gen.random_layout_text(ctx.rng, 12)))
+    # lines whose first character after the indentation is a non-ASCII space (text pasted from a word processor):
+    # such a character is content, not indentation
+    for i in range(ctx.n(400, 20000) * budget):
+        ls = []
+        for l in gen.random_layout_text(ctx.rng, 8).split('\n'):
+            n = len(l) - len(l.lstrip(' \t'))
+            if l.strip() and ctx.rng.random() < 0.35:
+                l = l[:n] + ctx.rng.choice(WIDE) + l[n:]
+            ls.append(l)
+        out.append((ctx.rng.choice([1, 2, 2, 3, 4]), '\n'.join(ls)))
+        ctx.count('pre_cases_wide_space_lead')
     return out
 
 def correspondence(ctx):
@@ -109,7 +125,7 @@ def search(ctx, budget):
     else:
         cs = pre_cases(ctx, budget); got = impl.pmap(impl.pre_parse, cs, chunk=256)
     for (size, text), out in zip(cs, got):
-        if not C11.in_alphabet(text): continue
+        if not in_scope(text): continue
         ctx.count('depth_oracle_cases')
         bad = depth_oracle(size, text, out)
         if bad:
